@@ -52,11 +52,17 @@ fn main() {
         for v in [-5i64, 0, 1, 7, 1 << 40, -(1 << 40)] {
             let c: C3 = Combinator::from(v);
             ok &= c.0.v == v && c.0.len == 1 && c.0.md == 0 && (c.1).0.v == v && (c.1).1.v == v && (c.1).0.md == 0 && (c.1).1.md == 0;
+            // Default and merge of the pair = Default and merge of the components, side by side. (Whether a component's Default is
+            // the identity of its merge is an assumption of C02's domain, not a clause of C01: not judged here.)
             let d = C3::default();
+            let (d0, d10, d11) = (SumAdd::<i64>::default(), MinAdd::<i64>::default(), MaxAdd::<i64>::default());
+            ok &= d.0.v == d0.v && d.0.len == d0.len && (d.1).0.v == d10.v && (d.1).1.v == d11.v;
             let m = C3::merge(&d, &c);
-            ok &= m.0.v == v && m.0.len == 1 && (m.1).0.v == v && (m.1).1.v == v;
+            let (e0, e10, e11) = (SumAdd::merge(&d0, &c.0), MinAdd::merge(&d10, &(c.1).0), MaxAdd::merge(&d11, &(c.1).1));
+            ok &= m.0.v == e0.v && m.0.len == e0.len && (m.1).0.v == e10.v && (m.1).1.v == e11.v;
             let m = C3::merge(&c, &d);
-            ok &= m.0.v == v && m.0.len == 1 && (m.1).0.v == v && (m.1).1.v == v;
+            let (e0, e10, e11) = (SumAdd::merge(&c.0, &d0), MinAdd::merge(&(c.1).0, &d10), MaxAdd::merge(&(c.1).1, &d11));
+            ok &= m.0.v == e0.v && m.0.len == e0.len && (m.1).0.v == e10.v && (m.1).1.v == e11.v;
             let mut tree: rlib_segtree::Segtree<C3, i64> = rlib_segtree::Segtree::new(5, Combinator::from(v));
             tree.modify(1, 3, &2);
             let a = tree.ask(0, 4);
@@ -64,7 +70,7 @@ fn main() {
             n += 1;
         }
         if !ok {
-            let v = vcore::Violation::new("combinator/from-default", "Combinator::from / Default / merge with the identity do not behave like the two components side by side");
+            let v = vcore::Violation::new("combinator/from-default", "Combinator::from / Default / merge do not behave like the two components side by side");
             ctx.violation("combinator-from-default", "segtree-history", &Case { alg: 7, nonneg: false, init: Ctor::New { n: 5, v: 0 }, ops: vec![] }, &v);
         }
         ctx.class("combinator-from-default-checks", n);
